@@ -81,7 +81,7 @@ def modelAt (fs : FullSt) (l : Line) (now : Int) : Res.Timed × String :=
   match str l "op" with
   | "issue" =>
     let rt : Option Res.RTok := if str l "rt" != "" then some { token := str l "rt", client := str l "client", subject := str l "sub", access := str l "id", issuer := str l "iss", exp := int l "rtexp" } else none
-    let t : Res.Tok := { id := str l "id", client := str l "client", subject := str l "sub", audience := list l "aud", refresh := str l "rt", issuer := str l "iss", exp := int l "exp", jwt := bool l "jwt" }
+    let t : Res.Tok := { id := str l "id", client := str l "client", subject := str l "sub", audience := list l "aud", refresh := str l "rt", issuer := str l "iss", exp := int l "exp", jwt := bool l "jwt", openid := !(has l "openid") || bool l "openid" }
     ((Res.stepT fs.atp fs.mod (.issue t rt)).1,
      if bool l "jwt" then "issued:exp=" ++ modelExpClaim now (int l "exp") (int l "skew") (str l "id") else "issued")
   | "expire" => ((Res.stepT fs.atp fs.mod (.expire (if str l "kind" == "rt" then .rt (str l "id") else .at (str l "id")))).1, "expired")
@@ -127,9 +127,9 @@ def observed (l : Line) : String :=
 def step (fs : FullSt) (l : Line) : FullSt × String :=
   let (mon', v) := monStep fs.mon l
   if str l "op" == "reset" then
-    -- a request-derived issuer: the reference storage keeps the tenants apart (refstore MultiTenant)
+    -- a request-derived issuer: the reference storage keeps the tenants apart (refstore MultiTenant) - unless it is the flat flavour
     let fs' : FullSt :=
-      { mon := mon', mod := { st := { partitioned := str l "issmode" != "static" }, expiryByClaim := bool l "byclaim" },
+      { mon := mon', mod := { st := { partitioned := str l "issmode" != "static" && !bool l "flat" }, expiryByClaim := bool l "byclaim" },
         -- a provider signing with a non-default algorithm was given `WithSupportedAccessTokenSigningAlgorithms(alg)` (and the same for hints)
         atp := { accessTokenKeySet := parseKeySet l "ks.", accessTokenVerifierOpts := if str l "sigalg" == "RS256" || str l "sigalg" == "" then [] else [str l "sigalg"] },
         clients := Drv.Flow.parseClients l,
